@@ -823,17 +823,17 @@ LEVEL_TEXT = ('Machine-checked proof (Coq 8.16.1). (A) ast2src: structural induc
               'index-tuple layouts are re-scanned from /repo on every run: EVERY well-formed tree is read back as itself (C04_ast2src, C04_table without exceptions); f-string bodies at '
               'character level (C04_fstring, C04_fstring_ast2src). (B) which parts are evaluated in the caller\'s scope: a model of PreTranslator\'s external / constant marking '
               '(contexts of for-clause and lambda names, call special cases through a callee oracle, the final pass over non-externalizable kinds) and of the extractor keys; theorems: '
-              'soundness of the marking (an external mentions no query variable or enclosing lambda parameter and contains no lambda) on trees without the known list/starred defect '
-              '(refuted witness otherwise), maximality as far as the code intends it, distinct keys per filter number, same text => same tree, and the first sentence of the property on an '
-              'integer evaluation semantics: Python\'s eval of the text ast2src prints for an external, in the caller\'s scope, is the value of that subexpression in place under any binding '
-              'of the query variables (C04_bound_value_except_known). Ties on every run: printer text = real ast2src; grammar model and ref_needs vs CPython ast.parse; the model\'s external '
+              'soundness of the marking (an external mentions no query variable, enclosing lambda parameter or subquery target and contains no lambda; unconditional since 5e60a83; dict / set '
+              'displays and nested generator expressions included), maximality as far as the code intends it, distinct keys per filter number, same text => same tree, and the first sentence of the property on an '
+              'evaluation semantics over integers, strings and tuples (validated against CPython): Python\'s eval of the text ast2src prints for an external, in the caller\'s scope, is the value of that subexpression in place under any binding '
+              'of the query variables (C04_bound_value). Ties on every run: printer text = real ast2src; grammar model and ref_needs vs CPython ast.parse; the model\'s external '
               'set and extractor texts = the real PreTranslator / create_extractors node for node on generated query bodies; real extract_vars keys and values over generated scopes. '
               'Search: eval(compile(tree)) vs eval(compile(ast2src(tree))) over recording values; the marking property on the real PreTranslator; external expressions of real queries on SQLite.')
 LEVEL_NOTE = ('Trusted: Coq kernel + vm_compute; the source scanner; the hand-written grammar model (levels + parser), validated against CPython but not derived from it; '
               'tokens as the unit (lexing outside the model: integer-literal receivers, quote nesting in f-strings); wf excludes folded negative constants (their reparse is a '
               'UnaryOp node; covered by the table theorem, the text tie and the search); the theorem is about AST identity of the reparse, which implies equal meaning; '
               'the PreTranslator model is hand-written (tied node for node, not translated from source); the callee classification of postCall (eval of the dotted name) is an oracle '
-              'argument; nested generator expressions (subqueries) and dict/set displays are outside the marking model; the value theorem is stated for the integer fragment of Model/C04Eval.v; '
+              'argument; dict/set displays are in the marking model but not in the printer model; the value theorem is stated for the integer/string/tuple fragment of Model/C04Eval.v; '
               'C04_print_parse has existential fuel, C04_print_parse_unique shows no fuel gives another answer.')
 TECHNIQUE = ('Coq proof by structural induction on rose trees (round trip printer -> precedence-climbing parser, generic in the parenthesisation table); finite table theorems by '
              'vm_compute + forallb_forall; table regenerated from source (py2coq scanner); vm_compute text correspondence with ast2src; CPython validation of the reference grammar; '
